@@ -6,7 +6,9 @@ from . import instr_gen as ig
 LEAF = ['Leaf_note', 'Leaf_build', 'Leaf_sustain', 'Leaf_dispatch', 'Leaf_tracks', 'Leaf_chart', 'Leaf_fromfile']      # translated functions this property's model relies on (Tie/<name>.v)
 
 RULE = ("one well-formed instrument section per case (note ticks non-decreasing): all 31 lane subsets + open, gaps incl. 1, chord as last group, "
-        "forced/tap flag lines in every position of a group (incl. both flags on a five-lane chord), S 2 / E lines interleaved between the N lines of one tick; "
+        "forced/tap flag lines in every position of a group (incl. both flags on a five-lane chord), S 2 / E lines interleaved between the N lines of one tick; any of the 40 section headers; "
+        "lane lines occasionally written twice; numerals with leading zeros / non-ASCII digits and white space; a third of the charts laid out differently (CRLF, other splitlines() boundaries, "
+        "blank lines inside the sections); a few padded so that a line end of the note section falls exactly on a 4 / 8 / 64 KiB boundary (filler in an unknown section in front); "
         "judged: exactly one event per distinct tick, strictly increasing, lanes = lanes written. Non-trivial: a chord of >= 3 lanes, or adjacent ticks, or S/E interleaved; distinct by text")
 ASSUMPTIONS = ["note ticks are non-decreasing in file order (the property's 'well-formed instrument section')"]
 IN_TYPE = "((bool * list (Z * Z)) * %s)" % PARSE_IN
@@ -14,13 +16,17 @@ VERDICT = "fun i o => parse_verdict cfg (snd i) o"
 SPEC = "fun i o => C02_spec (fst i) o"
 
 
-def make_case(R, tm, groups, lines, header="ExpertSingle"):
-    text = chart_text(res=R, sync=["0 = TS 4"] + tempo_lines(tm), tracks=[(header, lines)])
+def make_case(R, tm, groups, lines, header="ExpertSingle", layout=None, align=None):
+    text = laid_out(chart_text(res=R, sync=["0 = TS 4"] + tempo_lines(tm), tracks=[(header, lines)]), layout)
+    if align:
+        # a line end of the note section exactly on a block boundary of 4 / 8 / 64 KiB
+        import random as _random
+        text = align_line_end(_random.Random(align[1]), text, align[0], after="[%s]" % header)
     ch, exc, out = parse_case(text)
     nl = [(g["tick"], idx) for g in groups for idx, _ in g["lines"]]
     ticks = [g["tick"] for g in groups]
     nontriv = any(len([1 for i, _ in g["lines"] if i < 5]) >= 3 for g in groups) or any(b - a == 1 for a, b in zip(ticks, ticks[1:])) or any(" = S " in l or " = E " in l for l in lines)
-    return dict(case=dict(R=R, tm=[list(x) for x in tm], groups=groups, lines=lines, header=header, text=text),
+    return dict(case=dict(R=R, tm=[list(x) for x in tm], groups=groups, lines=lines, header=header, layout=layout, align=align, text=text),
                 in_term="((true, %s), %s)" % (coq_list("(%s, %s)" % (coq_Z(t), coq_Z(i)) for t, i in nl), parse_in_term(text)),
                 out_term=out, nontrivial=nontriv,
                 tags=["groups=%d" % min(len(groups), 10), "impl_error" if exc is not None else "impl_ok",
@@ -52,7 +58,7 @@ def cases(ctx, n):
     rng = ctx["rng"]
     out = [make_case(*f) for f in fixed_cases()]
     for c in load_corpus("C02"):
-        out.append(make_case(c["R"], [tuple(x) for x in c["tm"]], c["groups"], c["lines"]))
+        out.append(make_case(c["R"], [tuple(x) for x in c["tm"]], c["groups"], c["lines"], c.get("header", "ExpertSingle"), c.get("layout"), c.get("align")))
     while len(out) < n:
         R = rng.choice([192, 192, 480, 100, 96, 3, 1])
         groups = ig.gen_groups(rng, R, rng.choice([1, 2, 3, 5, 8, 14]))
@@ -61,13 +67,14 @@ def cases(ctx, n):
             lines = [(ig.exotic_line(rng, l) if rng.random() < 0.7 else ig.zero_pad(rng, l)) if rng.random() < 0.6 else l for l in lines]
         tm = ig.gen_tempo(rng, R, groups[-1]["tick"])
         header = pick_header(rng, 0.4)
-        out.append(make_case(R, tm, groups, lines, header))
+        align = [rng.choice([4096, 8192, 65536, 65536]), rng.randrange(10 ** 6)] if rng.random() < 0.04 else None
+        out.append(make_case(R, tm, groups, lines, header, None if align else pick_layout(rng), align))
     return out
 
 
 def run(ctx, only=None):
     if only:
-        cs = [make_case(c["R"], [tuple(x) for x in c["tm"]], c["groups"], c["lines"], c.get("header", "ExpertSingle")) for c in only if c]
+        cs = [make_case(c["R"], [tuple(x) for x in c["tm"]], c["groups"], c["lines"], c.get("header", "ExpertSingle"), c.get("layout"), c.get("align")) for c in only if c]
     else:
         cs = cases(ctx, 200 if ctx["tier"] == "quick" else 5000)
     return run_cases("C02", cs, IN_TYPE, PARSE_OUT, VERDICT, SPEC, shard_size=25)
